@@ -838,7 +838,8 @@ def make_timesig_maps(
     # beats, and time sig beat_type respectively
     ts = list(ts_orig)
     assert len(ts) > 0
-    ts.append((max_time, None, ts[-1][2]))
+    # a time signature may lie after the last note (e.g. final bars of rests)
+    ts.append((max(max_time, ts[-1][0]), None, ts[-1][2]))
 
     x = np.array([t for t, _, _ in ts])
     y = np.array([(x.numerator, x.denominator) for _, _, x in ts])
